@@ -30,6 +30,7 @@ fn gen_case(c: &mut Choices) -> Case {
         tsx,
         unusual: true,
         adversarial: true,
+        force_define_component: tsx && opts.resolve_type && c.chance(2, 3),
         ..Knobs::default()
     };
     let mut g = G::new(c, knobs);
@@ -112,12 +113,8 @@ pub fn judge(case: &Case, ctx: &mut Ctx) -> Verdict {
             detail: json!({"message": p}),
         };
     }
-    if let Some(p) = &outs[0].print_error {
-        return Verdict::Violation {
-            kind: "output-unprintable".into(),
-            detail: json!({"message": p}),
-        };
-    }
+    // a panic of hygiene/fixer/codegen on the visitor's output is C07's business ("output is a
+    // program"); here it only takes part in the determinism comparison
     let a = summarize(&case.source, lang, opts);
     let b = summarize(&case.source, lang, opts);
     for (name, o) in [("worker2", &outs[1]), ("inproc1", &a), ("inproc2", &b)] {
